@@ -5,6 +5,12 @@ package snapshot
 // Contracts checked by /verif (lsvc). This file contains comments only and is
 // compiled only with the build tag "verif".
 
+// BuildName only formats its (value) receiver into a new string (C15 is about
+// the format itself and is not decided here).
+//@ func (ni NameInfo) BuildName
+//@   trusted
+//@   pure
+
 //@ func (kv *KV) MaskedFlags
 //@   inline
 
@@ -246,6 +252,201 @@ package snapshot
 //@   exit all_written: offset == nameSize + flagsSize + transformSize
 //@   ensures appended_size: len(d.data) == old(len(d.data)) + nameSize + flagsSize + transformSize
 //@   ensures same_or_fresh_array: sameArray(d.data, old(d.data)) || fresh(d.data)
+// Meta.Marshal against the schema: the four string fields are written with
+// their field numbers as length-delimited fields exactly when non-empty, the
+// two transaction ids as varints and the timestamp as fixed64 exactly when
+// non-zero; each field starts where the previous one ended and the returned
+// slice ends with the last byte written; no index is out of range.
+//@ func (m *Meta) Marshal
+//@   nopanic
+//@   assumes strings_fit_memory: len(m.GenerationID) <= 1<<40 && len(m.InstanceID) <= 1<<40 && len(m.Hostname) <= 1<<40 && len(m.DatabaseName) <= 1<<40
+//@   modifies ghost_mGen, ghost_mInst, ghost_mHost, ghost_mDb, ghost_mTxn, ghost_mTS, ghost_mFrom
+//@   assumes ghosts_start_at_zero: ghost_mGen == 0 && ghost_mInst == 0 && ghost_mHost == 0 && ghost_mDb == 0 && ghost_mTxn == 0 && ghost_mTS == 0 && ghost_mFrom == 0
+//@   let genSize = ite(len(m.GenerationID) > 0, 1 + varintSize(uint64(len(m.GenerationID))) + len(m.GenerationID), 0)
+//@   let instSize = ite(len(m.InstanceID) > 0, 1 + varintSize(uint64(len(m.InstanceID))) + len(m.InstanceID), 0)
+//@   let hostSize = ite(len(m.Hostname) > 0, 1 + varintSize(uint64(len(m.Hostname))) + len(m.Hostname), 0)
+//@   let dbSize = ite(len(m.DatabaseName) > 0, 1 + varintSize(uint64(len(m.DatabaseName))) + len(m.DatabaseName), 0)
+//@   let strSize = genSize + instSize + hostSize + dbSize
+//@   let txnSize = ite(m.LmdbTxnID != 0, 1 + varintSize(uint64(m.LmdbTxnID)), 0)
+//@   let tsSize = ite(m.TimestampNano != 0, 9, 0)
+//@   let fromSize = ite(m.FromLmdbTxnID != 0, 1 + varintSize(uint64(m.FromLmdbTxnID)), 0)
+// Both loops run over the four-element table of string fields: they are
+// executed round by round (complete: the unwinding obligation shows that a
+// fifth round never starts).
+//@   loop 0 unroll 4
+//@   loop 1 unroll 4
+//@   loop 0 invariant estimate: bufSizeNeeded == ite(rangeindex0 >= 0, len(m.GenerationID) + 20, 0) + ite(rangeindex0 >= 1, len(m.InstanceID) + 20, 0) + ite(rangeindex0 >= 2, len(m.Hostname) + 20, 0) + ite(rangeindex0 >= 3, len(m.DatabaseName) + 20, 0)
+//@   loop 1 invariant position: offset == ite(rangeindex1 >= 0, genSize, 0) + ite(rangeindex1 >= 1, instSize, 0) + ite(rangeindex1 >= 2, hostSize, 0) + ite(rangeindex1 >= 3, dbSize, 0)
+//@   loop 1 invariant written: ghost_mGen == ite(rangeindex1 >= 0 && len(m.GenerationID) > 0, 1, 0) && ghost_mInst == ite(rangeindex1 >= 1 && len(m.InstanceID) > 0, 1, 0) && ghost_mHost == ite(rangeindex1 >= 2 && len(m.Hostname) > 0, 1, 0) && ghost_mDb == ite(rangeindex1 >= 3 && len(m.DatabaseName) > 0, 1, 0)
+//@   at_call csproto.EncodeTag#0 assert string_field: arg2 == 2 && (rangeindex1 == 0 ==> arg1 == 1 && sameSlice(sf.val, m.GenerationID)) && (rangeindex1 == 1 ==> arg1 == 2 && sameSlice(sf.val, m.InstanceID)) && (rangeindex1 == 2 ==> arg1 == 3 && sameSlice(sf.val, m.Hostname)) && (rangeindex1 == 3 ==> arg1 == 7 && sameSlice(sf.val, m.DatabaseName))
+//@   at_call csproto.EncodeVarint#0 assert string_length: arg1 == uint64(len(sf.val))
+//@   at_call copy#0 assert string_bytes: sameSlice(arg1, sf.val) && len(arg0) >= len(arg1)
+//@   after_call csproto.EncodeTag#0 ghost mGen := ite(rangeindex1 == 0, 1, ghost_mGen)
+//@   after_call csproto.EncodeTag#0 ghost mInst := ite(rangeindex1 == 1, 1, ghost_mInst)
+//@   after_call csproto.EncodeTag#0 ghost mHost := ite(rangeindex1 == 2, 1, ghost_mHost)
+//@   after_call csproto.EncodeTag#0 ghost mDb := ite(rangeindex1 == 3, 1, ghost_mDb)
+//@   at_call csproto.EncodeTag#1 assert txn_field: arg1 == 4 && arg2 == 0
+//@   at_call csproto.EncodeTag#1 assert txn_position!: offset == strSize
+//@   at_call csproto.EncodeVarint#1 assert txn_value: arg1 == uint64(m.LmdbTxnID)
+//@   after_call csproto.EncodeTag#1 ghost mTxn := 1
+//@   at_call csproto.EncodeTag#2 assert timestamp_field: arg1 == 5 && arg2 == 1
+//@   at_call csproto.EncodeTag#2 assert timestamp_position!: offset == strSize + txnSize
+//@   at_call binary.(littleEndian).PutUint64#0 assert timestamp_value: arg2 == m.TimestampNano
+//@   after_call csproto.EncodeTag#2 ghost mTS := 1
+//@   at_call csproto.EncodeTag#3 assert from_field: arg1 == 8 && arg2 == 0
+//@   at_call csproto.EncodeTag#3 assert from_position!: offset == strSize + txnSize + tsSize
+//@   at_call csproto.EncodeVarint#2 assert from_value: arg1 == uint64(m.FromLmdbTxnID)
+//@   after_call csproto.EncodeTag#3 ghost mFrom := 1
+//@   exit all_written: offset == strSize + txnSize + tsSize + fromSize
+//@   ensures size: len(r0) == strSize + txnSize + tsSize + fromSize
+//@   ensures strings_written_iff_nonempty: iff(ghost_mGen == 1, len(m.GenerationID) > 0) && iff(ghost_mInst == 1, len(m.InstanceID) > 0) && iff(ghost_mHost == 1, len(m.Hostname) > 0) && iff(ghost_mDb == 1, len(m.DatabaseName) > 0)
+//@   ensures txn_written_iff_nonzero: iff(ghost_mTxn == 1, m.LmdbTxnID != 0)
+//@   ensures timestamp_written_iff_nonzero: iff(ghost_mTS == 1, m.TimestampNano != 0)
+//@   ensures from_written_iff_nonzero: iff(ghost_mFrom == 1, m.FromLmdbTxnID != 0)
+// DBI.Marshal returns the whole message built so far (top-level fields
+// flushed first), without copying.
+//@ func (d *DBI) Marshal
+//@   assumes names_fit: len(d.name) <= 511 && len(d.transform) <= 64
+//@   modifies d.data, d.dirty, d.flushed, bytes(d.data[:cap(d.data)])
+//@   nopanic
+//@   ensures whole_message: sameSlice(r0, d.data)
+
+// Snapshot.WriteTo against the schema: format_version (1) and compat_version
+// (4) are written as varints when non-zero and flushed; then meta (2) and
+// every non-empty DBI (3) as a length-delimited field: a header (tag and the
+// length of the nested message) followed by exactly the nested message.
+// Every byte handed to the writer is counted in the result; an incomplete
+// write stops the function with the writer's error.
+//@ func (s *Snapshot) WriteTo
+//@   assumes writer_given: w != nil
+//@   modifies heap, ghost_wpos, ghost_mGen, ghost_mInst, ghost_mHost, ghost_mDb, ghost_mTxn, ghost_mTS, ghost_mFrom
+//@   nopanic
+//@   let fv = uint64(s.FormatVersion)
+//@   let cv = uint64(s.CompatVersion)
+//@   let fvSize = ite(s.FormatVersion != 0, 1 + varintSize(uint64(s.FormatVersion)), 0)
+//@   let cvSize = ite(s.CompatVersion != 0, 1 + varintSize(uint64(s.CompatVersion)), 0)
+//@   loop 0 invariant table: len(varintFields) == 2 && varintFields[0].tag == 1 && varintFields[0].val == uint64(s.FormatVersion) && varintFields[1].tag == 4 && varintFields[1].val == uint64(s.CompatVersion)
+//@   loop 0 invariant index: -1 <= rangeindex0 && rangeindex0 < 2
+//@   loop 0 invariant buffer: len(b) == 1000
+//@   loop 0 invariant position: offset == ite(rangeindex0 >= 0, fvSize, 0) + ite(rangeindex0 >= 1, cvSize, 0)
+//@   loop 0 invariant nothing_written_yet: nWritten == 0 && ghost_wpos == old(ghost_wpos)
+//@   at_call csproto.EncodeTag#0 assert version_field: arg2 == 0 && arg1 == varintFields[rangeindex0].tag
+//@   at_call csproto.EncodeVarint#0 assert version_value: arg1 == varintFields[rangeindex0].val
+//@   at_call io.Writer.Write#0 assert versions_flushed: sameArray(arg1, b) && offsetOf(arg1) == offsetOf(b) && len(arg1) == fvSize + cvSize
+//@   at_call csproto.EncodeTag#1 assert meta_field: arg1 == 2 && arg2 == 2 && offset == 0
+//@   at_call csproto.EncodeVarint#1 assert meta_length: arg1 == uint64(len(metaPB)) && offset == 1
+//@   at_call io.Writer.Write#1 assert meta_header: sameArray(arg1, b) && offsetOf(arg1) == offsetOf(b) && len(arg1) == 1 + varintSize(uint64(len(metaPB)))
+//@   at_call io.Writer.Write#2 assert meta_message: sameSlice(arg1, metaPB)
+//@   at_call io.Writer.Write#2 assert meta_follows_its_header: ghost_wpos == old(ghost_wpos) + uint64(fvSize + cvSize + 1 + varintSize(uint64(len(metaPB))))
+//@   loop 1 ghost loc_wroteDBI := 0
+//@   loop 1 ghost loc_pos0 := ghost_wpos
+//@   loop 1 invariant index: -1 <= rangeindex1 && rangeindex1 < len(s.Databases)
+//@   loop 1 invariant buffer: len(b) == 1000
+//@   loop 1 invariant counted: uint64(nWritten) == ghost_wpos - old(ghost_wpos)
+//@   at_call csproto.EncodeTag#2 assert dbi_field: arg1 == 3 && arg2 == 2 && offset == 0
+//@   at_call csproto.EncodeVarint#2 assert dbi_length: arg1 == uint64(len(dbiPB)) && offset == 1
+//@   at_call io.Writer.Write#3 assert dbi_header: sameArray(arg1, b) && offsetOf(arg1) == offsetOf(b) && len(arg1) == 1 + varintSize(uint64(len(dbiPB))) && ghost_wpos == ghost_loc_pos0
+//@   at_call io.Writer.Write#4 assert dbi_message: sameSlice(arg1, dbiPB)
+//@   at_call io.Writer.Write#4 assert dbi_follows_its_header: ghost_wpos == ghost_loc_pos0 + uint64(1 + varintSize(uint64(len(dbiPB))))
+//@   after_call io.Writer.Write#4 ghost loc_wroteDBI := 1
+//@   loop 1 step every_nonempty_dbi_written: ghost_loc_wroteDBI == 1 || len(dbiPB) == 0
+//@   loop 1 step nothing_else_written: ghost_wpos == ghost_loc_pos0 + ite(len(dbiPB) == 0, 0, uint64(1 + varintSize(uint64(len(dbiPB))) + len(dbiPB)))
+//@   ensures counted: uint64(nWritten) == ghost_wpos - old(ghost_wpos)
+// ---------------------------------------------------------------- Meta / Snapshot decoders (C07, C08)
+
+// The get* helpers accept exactly the wire type of the schema's field type and
+// return the one value the decoder hands out for it (ghost_dec*, see
+// /verif/spec/csproto.contracts); a wrong wire type or a decoder error is an
+// error and consumes at most that value.
+//@ func getUInt32
+//@   nopanic
+//@   noswallow
+//@   modifies ghost_decN, ghost_decKind, ghost_decVal, ghost_decArr, ghost_decOff, ghost_decLen
+//@   ensures wire_type: r1 == nil ==> wireType == 0
+//@   ensures value: r1 == nil ==> ghost_decKind == 3 && uint64(r0) == ghost_decVal && ghost_decN == old(ghost_decN) + 1
+//@   ensures rejected_before_reading: wireType != 0 ==> r1 != nil && ghost_decN == old(ghost_decN)
+//@ func getInt64
+//@   nopanic
+//@   noswallow
+//@   modifies ghost_decN, ghost_decKind, ghost_decVal, ghost_decArr, ghost_decOff, ghost_decLen
+//@   ensures wire_type: r1 == nil ==> wireType == 0
+//@   ensures value: r1 == nil ==> ghost_decKind == 4 && uint64(r0) == ghost_decVal && ghost_decN == old(ghost_decN) + 1
+//@   ensures rejected_before_reading: wireType != 0 ==> r1 != nil && ghost_decN == old(ghost_decN)
+//@ func getFixed64
+//@   nopanic
+//@   noswallow
+//@   modifies ghost_decN, ghost_decKind, ghost_decVal, ghost_decArr, ghost_decOff, ghost_decLen
+//@   ensures wire_type: r1 == nil ==> wireType == 1
+//@   ensures value: r1 == nil ==> ghost_decKind == 5 && r0 == ghost_decVal && ghost_decN == old(ghost_decN) + 1
+//@   ensures rejected_before_reading: wireType != 1 ==> r1 != nil && ghost_decN == old(ghost_decN)
+//@ func getBytes
+//@   nopanic
+//@   noswallow
+//@   modifies ghost_decN, ghost_decKind, ghost_decVal, ghost_decArr, ghost_decOff, ghost_decLen
+//@   ensures wire_type: r1 == nil ==> wireType == 2
+//@   ensures value: r1 == nil ==> ghost_decKind == 2 && arrayOf(r0) == ghost_decArr && offsetOf(r0) == ghost_decOff && uint64(len(r0)) == ghost_decLen && ghost_decN == old(ghost_decN) + 1
+//@   ensures no_spare_capacity: r1 == nil ==> cap(r0) == len(r0)
+//@   ensures rejected_before_reading: wireType != 2 ==> r1 != nil && ghost_decN == old(ghost_decN)
+//@ func getString
+//@   nopanic
+//@   noswallow
+//@   modifies ghost_decN, ghost_decKind, ghost_decVal, ghost_decArr, ghost_decOff, ghost_decLen
+//@   ensures wire_type: r1 == nil ==> wireType == 2
+//@   ensures value: r1 == nil ==> ghost_decKind == 1 && arrayOf(r0) == ghost_decArr && offsetOf(r0) == ghost_decOff && uint64(len(r0)) == ghost_decLen && ghost_decN == old(ghost_decN) + 1
+//@   ensures rejected_before_reading: wireType != 2 ==> r1 != nil && ghost_decN == old(ghost_decN)
+
+// Meta.Unmarshal against the schema, one field per iteration: the field the
+// tag names (generation_id = 1, instance_id = 2, hostname = 3, lmdb_txn_id = 4
+// as int64 varint, timestamp_nano = 5 as fixed64, database_name = 7,
+// from_lmdb_txn_id = 8) receives the value the decoder hands out for the
+// schema's type, every other field keeps its value, any other tag is skipped
+// with its own wire type; every decoder error ends the function with an error.
+//@ func (m *Meta) Unmarshal
+//@   nopanic
+//@   noswallow
+//@   modifies *m, ghost_decN, ghost_decKind, ghost_decVal, ghost_decArr, ghost_decOff, ghost_decLen
+//@   after_call csproto.(*Decoder).DecodeTag#0 ghost loc_tag := uint64(ret0)
+//@   after_call csproto.(*Decoder).DecodeTag#0 ghost loc_wt := uint64(ret1)
+//@   loop 0 ghost loc_n0 := ghost_decN
+//@   loop 0 invariant not_failed: ghost_loc_failed == 0
+//@   at_call csproto.(*Decoder).Skip#0 assert skips_the_unknown_field_itself: uint64(arg1) == ghost_loc_tag && uint64(arg2) == ghost_loc_wt
+//@   loop 0 step one_value_per_field: ghost_decN == ghost_loc_n0 + 1
+//@   loop 0 step generation_id_is_field_1: (ghost_loc_tag == 1 ==> ghost_decKind == 1 && arrayOf(m.GenerationID) == ghost_decArr && offsetOf(m.GenerationID) == ghost_decOff && uint64(len(m.GenerationID)) == ghost_decLen) && (ghost_loc_tag != 1 ==> sameSlice(m.GenerationID, atHead(m.GenerationID)))
+//@   loop 0 step instance_id_is_field_2: (ghost_loc_tag == 2 ==> ghost_decKind == 1 && arrayOf(m.InstanceID) == ghost_decArr && offsetOf(m.InstanceID) == ghost_decOff && uint64(len(m.InstanceID)) == ghost_decLen) && (ghost_loc_tag != 2 ==> sameSlice(m.InstanceID, atHead(m.InstanceID)))
+//@   loop 0 step hostname_is_field_3: (ghost_loc_tag == 3 ==> ghost_decKind == 1 && arrayOf(m.Hostname) == ghost_decArr && offsetOf(m.Hostname) == ghost_decOff && uint64(len(m.Hostname)) == ghost_decLen) && (ghost_loc_tag != 3 ==> sameSlice(m.Hostname, atHead(m.Hostname)))
+//@   loop 0 step lmdb_txn_id_is_field_4: (ghost_loc_tag == 4 ==> ghost_decKind == 4 && uint64(m.LmdbTxnID) == ghost_decVal) && (ghost_loc_tag != 4 ==> m.LmdbTxnID == atHead(m.LmdbTxnID))
+//@   loop 0 step timestamp_nano_is_field_5: (ghost_loc_tag == 5 ==> ghost_decKind == 5 && m.TimestampNano == ghost_decVal) && (ghost_loc_tag != 5 ==> m.TimestampNano == atHead(m.TimestampNano))
+//@   loop 0 step database_name_is_field_7: (ghost_loc_tag == 7 ==> ghost_decKind == 1 && arrayOf(m.DatabaseName) == ghost_decArr && offsetOf(m.DatabaseName) == ghost_decOff && uint64(len(m.DatabaseName)) == ghost_decLen) && (ghost_loc_tag != 7 ==> sameSlice(m.DatabaseName, atHead(m.DatabaseName)))
+//@   loop 0 step from_lmdb_txn_id_is_field_8: (ghost_loc_tag == 8 ==> ghost_decKind == 4 && uint64(m.FromLmdbTxnID) == ghost_decVal) && (ghost_loc_tag != 8 ==> m.FromLmdbTxnID == atHead(m.FromLmdbTxnID))
+//@   loop 0 step unknown_fields_are_skipped: ghost_loc_tag != 1 && ghost_loc_tag != 2 && ghost_loc_tag != 3 && ghost_loc_tag != 4 && ghost_loc_tag != 5 && ghost_loc_tag != 7 && ghost_loc_tag != 8 ==> ghost_decKind == 6
+
+// Snapshot.Unmarshal against the schema: format_version = 1 and
+// compat_version = 4 are uint32 varints; meta = 2 is decoded by Meta.Unmarshal
+// from exactly the nested bytes; every dbis = 3 becomes one more DBI, built from
+// exactly its nested bytes and appended in order; other tags are skipped. The
+// decoder admits nested messages up to MaxFieldLength, which must keep the
+// decoder's own bounds arithmetic from wrapping.
+//@ func (s *Snapshot) Unmarshal
+//@   nopanic
+//@   noswallow
+//@   modifies heap, ghost_decN, ghost_decKind, ghost_decVal, ghost_decArr, ghost_decOff, ghost_decLen
+//@   after_call csproto.(*Decoder).DecodeTag#0 ghost loc_tag := uint64(ret0)
+//@   after_call csproto.(*Decoder).DecodeTag#0 ghost loc_wt := uint64(ret1)
+//@   loop 0 invariant not_failed: ghost_loc_failed == 0
+//@   at_call csproto.(*Decoder).Skip#0 assert skips_the_unknown_field_itself: uint64(arg1) == ghost_loc_tag && uint64(arg2) == ghost_loc_wt
+//@   at_call snapshot.getUInt32#0 assert format_version_is_a_varint_field: uint64(arg1) == ghost_loc_tag && uint64(arg2) == ghost_loc_wt && ghost_loc_tag == 1
+//@   at_call snapshot.getUInt32#1 assert compat_version_is_a_varint_field: uint64(arg1) == ghost_loc_tag && uint64(arg2) == ghost_loc_wt && ghost_loc_tag == 4
+//@   at_call snapshot.getBytes#0 assert meta_is_a_nested_message: uint64(arg1) == ghost_loc_tag && uint64(arg2) == ghost_loc_wt && ghost_loc_tag == 2
+//@   at_call snapshot.getBytes#1 assert dbi_is_a_nested_message: uint64(arg1) == ghost_loc_tag && uint64(arg2) == ghost_loc_wt && ghost_loc_tag == 3
+//@   at_call snapshot.(*Meta).Unmarshal#0 assert meta_from_its_nested_bytes: ghost_decKind == 2 && arrayOf(arg1) == ghost_decArr && offsetOf(arg1) == ghost_decOff && uint64(len(arg1)) == ghost_decLen
+//@   at_call snapshot.NewDBIFromData#0 assert dbi_from_its_nested_bytes: ghost_decKind == 2 && arrayOf(arg0) == ghost_decArr && offsetOf(arg0) == ghost_decOff && uint64(len(arg0)) == ghost_decLen
+//@   after_call snapshot.NewDBIFromData#0 ghost loc_dbi := refOf(ret0)
+//@   at_call append#0 assert appends_that_dbi: sameSlice(arg0, s.Databases) && len(arg1) == 1 && refOf(arg1[0]) == ghost_loc_dbi
+//@   loop 0 step format_version_is_field_1: (ghost_loc_tag == 1 ==> ghost_decKind == 3 && uint64(s.FormatVersion) == ghost_decVal) && (ghost_loc_tag != 1 ==> s.FormatVersion == atHead(s.FormatVersion))
+//@   loop 0 step compat_version_is_field_4: (ghost_loc_tag == 4 ==> ghost_decKind == 3 && uint64(s.CompatVersion) == ghost_decVal) && (ghost_loc_tag != 4 ==> s.CompatVersion == atHead(s.CompatVersion))
+//@   loop 0 step dbis_grow_by_field_3_only: len(s.Databases) == atHead(len(s.Databases)) + ite(ghost_loc_tag == 3, 1, 0)
+//@   loop 0 step unknown_fields_are_skipped: ghost_loc_tag != 1 && ghost_loc_tag != 2 && ghost_loc_tag != 3 && ghost_loc_tag != 4 ==> ghost_decKind == 6
+
 // Map: an error of the per-entry callback (or of the decoder, other than the
 // end of the data) makes the whole transformation fail; nothing is returned.
 //@ func (d *DBI) ResetCursor
